@@ -74,6 +74,11 @@ func (res *Response) Header() http.Header {
 func (res *Response) WriteHeader(statusCode int) {
 	if !res.hijacked && res.statusCode == 0 && res.statusCode != statusCode {
 		status := http.StatusText(statusCode)
+		if status == "" && statusCode >= 100 && statusCode <= 999 {
+			// a code without a registered reason phrase is still the
+			// handler's status (net/http sends it the same way).
+			status = "status code " + strconv.Itoa(statusCode)
+		}
 		if status != "" {
 			res.status = status
 			res.statusCode = statusCode
